@@ -688,9 +688,10 @@ func c13NoUseAfterRelease(p *Prog, r *Report, rule string) {
 			obj     types.Object
 			release bool
 			pos     string
+			scopes  []ast.Node // enclosing branches that end in return / continue / break: what happens there stays there
 		}
 		var evs []event
-		var visit func(owner *FuncInfo, node ast.Node, bind map[types.Object]types.Object, depth int)
+		var visit func(owner *FuncInfo, node ast.Node, bind map[types.Object]types.Object, depth int, outer []ast.Node)
 		canon := func(bind map[types.Object]types.Object, o types.Object) types.Object {
 			for i := 0; i < 6; i++ {
 				if b, ok := bind[o]; ok {
@@ -704,9 +705,33 @@ func c13NoUseAfterRelease(p *Prog, r *Report, rule string) {
 		isTx := func(o types.Object) bool {
 			return o != nil && strings.HasSuffix(o.Type().String(), "core.Transaction") && strings.HasPrefix(o.Type().String(), "*")
 		}
-		visit = func(owner *FuncInfo, node ast.Node, bind map[types.Object]types.Object, depth int) {
+		visit = func(owner *FuncInfo, node ast.Node, bind map[types.Object]types.Object, depth int, outer []ast.Node) {
 			oinfo := owner.Pkg.TypesInfo
 			var deferred []*ast.DeferStmt
+			var terminating []*ast.BlockStmt
+			walkNoLit(node, func(x ast.Node) bool {
+				var body *ast.BlockStmt
+				switch st := x.(type) {
+				case *ast.IfStmt:
+					body = st.Body
+				}
+				if body != nil && len(body.List) > 0 {
+					switch body.List[len(body.List)-1].(type) {
+					case *ast.ReturnStmt, *ast.BranchStmt:
+						terminating = append(terminating, body)
+					}
+				}
+				return true
+			})
+			scopesAt := func(at ast.Node) []ast.Node {
+				res := append([]ast.Node{}, outer...)
+				for _, tb := range terminating {
+					if tb.Pos() <= at.Pos() && at.End() <= tb.End() {
+						res = append(res, tb)
+					}
+				}
+				return res
+			}
 			walkNoLit(node, func(x ast.Node) bool {
 				switch st := x.(type) {
 				case *ast.DeferStmt:
@@ -717,7 +742,7 @@ func c13NoUseAfterRelease(p *Prog, r *Report, rule string) {
 					if p.callIs(owner.Pkg, st, "(*internal/model/core.Pool).Release") {
 						for _, a := range st.Args {
 							if o := objOf(oinfo, a); isTx(o) {
-								evs = append(evs, event{canon(bind, o), true, p.pos(st)})
+								evs = append(evs, event{canon(bind, o), true, p.pos(st), scopesAt(st)})
 							}
 						}
 						return false
@@ -736,18 +761,18 @@ func c13NoUseAfterRelease(p *Prog, r *Report, rule string) {
 								}
 							}
 						}
-						visit(h, h.Decl.Body, nb, depth+1)
+						visit(h, h.Decl.Body, nb, depth+1, scopesAt(st))
 						return false
 					}
 					// any other use of a transaction object: receiver or argument
 					if sel, ok := ast.Unparen(st.Fun).(*ast.SelectorExpr); ok {
 						if o := objOf(oinfo, sel.X); isTx(o) {
-							evs = append(evs, event{canon(bind, o), false, p.pos(st)})
+							evs = append(evs, event{canon(bind, o), false, p.pos(st), scopesAt(st)})
 						}
 					}
 					for _, a := range st.Args {
 						if o := objOf(oinfo, a); isTx(o) {
-							evs = append(evs, event{canon(bind, o), false, p.pos(st)})
+							evs = append(evs, event{canon(bind, o), false, p.pos(st), scopesAt(st)})
 						}
 					}
 				}
@@ -756,27 +781,41 @@ func c13NoUseAfterRelease(p *Prog, r *Report, rule string) {
 			for i := len(deferred) - 1; i >= 0; i-- {
 				d := deferred[i]
 				if lit, ok := ast.Unparen(d.Call.Fun).(*ast.FuncLit); ok {
-					visit(owner, lit.Body, bind, depth)
+					visit(owner, lit.Body, bind, depth, nil)
 				} else {
-					visit(owner, &ast.ExprStmt{X: d.Call}, bind, depth)
+					visit(owner, &ast.ExprStmt{X: d.Call}, bind, depth, nil)
 				}
 			}
 		}
-		visit(fi, fi.Decl.Body, map[types.Object]types.Object{}, 0)
-		released := map[types.Object]string{}
+		visit(fi, fi.Decl.Body, map[types.Object]types.Object{}, 0, nil)
 		bad := ""
 		any := false
-		for _, e := range evs {
-			if at, was := released[e.obj]; was && bad == "" {
+		for i, e := range evs {
+			if e.release {
+				any = true
+			}
+			for _, prev := range evs[:i] {
+				if !prev.release || prev.obj != e.obj || bad != "" {
+					continue
+				}
+				// a release inside a branch that leaves the function concerns only what follows inside that branch
+				inScope := len(prev.scopes) == 0
+				if !inScope {
+					last := prev.scopes[len(prev.scopes)-1]
+					for _, sc := range e.scopes {
+						if sc == last {
+							inScope = true
+						}
+					}
+				}
+				if !inScope {
+					continue
+				}
 				what := "used"
 				if e.release {
 					what = "released again"
 				}
-				bad = fmt.Sprintf("%s is released to the pool at %s and %s at %s", e.obj.Name(), at, what, e.pos)
-			}
-			if e.release {
-				any = true
-				released[e.obj] = e.pos
+				bad = fmt.Sprintf("%s is released to the pool at %s and %s at %s", e.obj.Name(), prev.pos, what, e.pos)
 			}
 		}
 		if !any {
@@ -843,7 +882,38 @@ func c15JobsCaptureNoMovingVariable(p *Prog, r *Report, rule string) {
 				free[v] = true
 				return true
 			})
-			// assigned again outside the literal (not the declaration, not inside the literal itself)?
+			// assigned again in a loop outside the literal (not the declaration, not inside the literal itself)? A
+			// straight-line assignment is ordered with the job's start or with a Wait by the code around it and is not
+			// this rule's business; the variables of a for / range clause are per iteration (Go 1.22).
+			var loops []ast.Node
+			perIter := map[types.Object]bool{}
+			ast.Inspect(fi.Decl.Body, func(x ast.Node) bool {
+				switch st := x.(type) {
+				case *ast.ForStmt:
+					loops = append(loops, st.Body)
+					if as, ok := st.Init.(*ast.AssignStmt); ok && as.Tok == token.DEFINE {
+						for _, l := range as.Lhs {
+							if id, ok := l.(*ast.Ident); ok && info.Defs[id] != nil {
+								perIter[info.Defs[id]] = true
+							}
+						}
+					}
+				case *ast.RangeStmt:
+					loops = append(loops, st.Body)
+				}
+				return true
+			})
+			inLoop := func(at ast.Node) bool {
+				for _, l := range loops {
+					if l.Pos() <= at.Pos() && at.End() <= l.End() {
+						return true
+					}
+				}
+				return false
+			}
+			for o := range perIter {
+				delete(free, o)
+			}
 			bad := ""
 			ast.Inspect(fi.Decl.Body, func(x ast.Node) bool {
 				if x == ast.Node(lit) {
@@ -865,8 +935,10 @@ func c15JobsCaptureNoMovingVariable(p *Prog, r *Report, rule string) {
 				}
 				switch st := x.(type) {
 				case *ast.AssignStmt:
-					for _, l := range st.Lhs {
-						note(l, st, st.Tok == token.DEFINE)
+					if inLoop(st) {
+						for _, l := range st.Lhs {
+							note(l, st, st.Tok == token.DEFINE)
+						}
 					}
 				case *ast.RangeStmt:
 					if st.Tok == token.ASSIGN {
@@ -878,7 +950,9 @@ func c15JobsCaptureNoMovingVariable(p *Prog, r *Report, rule string) {
 						}
 					}
 				case *ast.IncDecStmt:
-					note(st.X, st, false)
+					if inLoop(st) {
+						note(st.X, st, false)
+					}
 				}
 				return true
 			})
@@ -1035,6 +1109,9 @@ func c11UploadThroughStreamReader(p *Prog, r *Report, rule string) {
 				return true
 			}
 			if p.callIs(lf.Pkg, c, kStoreSet) && len(c.Args) >= 3 {
+				if o := objOf(lf.Pkg.TypesInfo, c.Args[2]); o != nil && lf != fi && isParamOf(lf.Pkg.TypesInfo, lf.Decl, o) {
+					return true // a decorator of the use case hands its own parameter on: judged where it is called
+				}
 				sets++
 				r.Check(derives(lf, c.Args[2], 0), rule, fmt.Sprintf("%s#content-is-the-stream-reader/%d", k, sets), p.pos(c), "Set reads the stream through streamreader.New(stream)",
 					"the content handed to the store use case ("+types.ExprString(c.Args[2])+") is not the stream reader or a reader around it: what Set reads is decoupled from the stream (a pipe filled by a goroutine, a buffer), so a broken or cancelled upload ends as a clean EOF and the partial content is committed while the client is told about the failure")
